@@ -46,6 +46,9 @@ def main():
             cmd = meta.get("demo_cmd", "")
             mdest = re.search(r"cp \S*demo_test\.go\s+(\S+)", cmd)
             dest = mdest.group(1) if mdest else "seeded_demo/demo_test.go"
+            if meta.get("demo_dest"):
+                dest = meta["demo_dest"]
+            dest = re.sub(r"^/tmp/wt2_C\d+/", "", dest)
             dest = re.sub(r"^/tmp/wt_C\d+/", "", dest)
             if dest.endswith("/"):
                 dest += "demo_test.go"
